@@ -99,7 +99,8 @@ Record ostep := mkStep {
 Record ohistory := mkHist {
   h_resdelay : bool;            (* reservations enabled *)
   h_preddeny : list (N * N);    (* (key,node) pairs the predicate table denies, restricted to names of the history *)
-  h_init : ostate; h_steps : list ostep }.
+  h_init : ostate; h_steps : list ostep;
+  h_reswait : bool              (* the reservation wait timeout is crossed immediately *) }.
 
 (* ---- small projections used by all oracles ---- *)
 Definition find_node (s : ostate) (id : N) : option onode := find (fun n => on_id n =? id) (s_nodes s).
